@@ -260,7 +260,7 @@ impl Property for C15 {
     const ID: &'static str = "C15";
     const RULE: &'static str = "proptest-generated forms: 0..8 text fields and 0..6 files (empty form forced), names/filenames over printable Unicode without quote/CR/LF, file data over all byte values with classes \
 {random, all 256 values, CR/LF/dash runs, delimiter look-alikes, the boundary of an earlier build of the same form, part-header text}, sizes k*8192+r so part boundaries sweep every residue of the 8 KiB copy buffer, optional MIME types; \
-sent through post().body(form).send(); the recorded request is parsed by the strict reference parser and the de-chunked body by the reference multipart decoder with the announced boundary; the multiset of parts must equal what was added. \
+sent through post().body(form).send() (twice from the same prepared request) over a transport that accepts every write whole or at most 1..16000 bytes per call; the recorded request is parsed by the strict reference parser and the de-chunked body by the reference multipart decoder with the announced boundary; the multiset of parts must equal what was added. \
 non-trivial = >= 2 parts with a file, or data containing a delimiter look-alike, or total size > 8 KiB";
 
     fn assumptions() -> Vec<String> {
